@@ -40,7 +40,7 @@ ETAGS = [1000, 1002, 1003, 1004, 1002, 1000]     # plain, linked-block, compress
 SELEM = {1002: bytes(range(50))[:40], 1003: (b"ab" * 30)[:40], 1004: bytes(range(16))}
 
 
-def open_call(p, kind, var, parent, fi, mode, etag=1000):
+def open_call(p, kind, var, parent, fi, mode, etag=1000, etag_i=0):
     if kind == "fid":
         return p.call("i", "Hopen", FILES[fi], mode, 0, bind=var)
     if kind == "sd":
@@ -60,7 +60,7 @@ def open_call(p, kind, var, parent, fi, mode, etag=1000):
     if kind == "an":
         return p.call("i", "ANstart", V(parent), bind=var)
     if kind == "ann":
-        return p.call("i", "ANselect", V(parent), 0, 1, bind=var)
+        return p.call("i", "ANselect", V(parent), 0, [1, 3, 2, 0, 3, 1][etag_i % 6], bind=var)
     if kind == "sds":
         return p.call("i", "SDselect", V(parent), 0, bind=var)
     if kind == "dim":
@@ -126,6 +126,17 @@ def strategy_(draw, tier):
         steps.append(["closefid", 0])
         nopen["fid"] = 1
         nopen["aid"] = na
+    elif scen == 7:
+        # directed opening: an annotation id used after the ANend of its session (all four annotation types)
+        steps.append(["open", "fid", draw(st.integers(0, 1)), 0, draw(st.sampled_from([1, 3]))])
+        steps.append(["open", "an", 0, 0, 1, 0])
+        steps.append(["open", "ann", 0, 0, 1, draw(st.integers(0, 5))])
+        if draw(st.booleans()):
+            steps.append(["use", 2, draw(st.integers(0, 20))])
+        steps.append(["release", 2])
+        steps.append(["release", 1])
+        steps.append(["bad", "ann", draw(st.integers(0, 20)), "stale", draw(st.integers(0, 60))])
+        nopen["fid"] = 1
     elif scen < 6:
         for _ in range(draw(st.integers(2, 3))):
             steps.append(["open", "fid", draw(st.integers(0, 1)), 0, draw(st.sampled_from([1, 1, 3]))])
@@ -234,7 +245,7 @@ def run_case(case):
                 if kind == "sd":
                     mode = 1      # SD calls on a read-write handle may legitimately rewrite metadata at SDend
                 ln = open_call(p, kind, var, objs[parent]["var"] if parent is not None else None, fi,
-                               mode if kind in ("fid", "sd") else 1, etag)
+                               mode if kind in ("fid", "sd") else 1, etag, st_[5] if len(st_) > 5 else 0)
                 if etag != 1000:
                     labels.add("aid_on_special")
                     if any(o["kind"] == "aid" and o["live"] and o.get("etag") == etag and o["file"] == fi
@@ -315,7 +326,18 @@ def run_case(case):
                             and kind not in ("dim", "an") and
                             not (kind == "sd" and any(q["kind"] == "sd" and q is not o for q in objs))]
                     kkey = None
-                    if kind in ("sds", "ann") and dead:
+                    ann_ended = False
+                    if kind == "ann" and dead:
+                        # an annotation id outlives ANendaccess (known finding, below) but not the ANend of its
+                        # session: ids whose AN session has ended (and whose file has no other AN session that
+                        # could keep the shared annotation state alive) must be rejected
+                        ended = [o for o in dead if not objs[o["parent"]]["live"] and
+                                 not any(q["kind"] == "an" and q["live"] and q["file"] == o["file"] for q in objs)]
+                        if ended:
+                            dead = ended
+                            ann_ended = True
+                            labels.add("ann_id_after_anend")
+                    if kind in ("sds", "ann") and dead and not ann_ended:
                         # dataset ids encode an index and annotation ids belong to the annotation, not to the
                         # ANselect call: neither is invalidated by its endaccess call (known findings, excluded)
                         kkey = "C13-%s-id-after-endaccess" % kind
